@@ -54,6 +54,8 @@ pub enum Item {
     Unsol(bool, bool, bool),
     /// unsolicited response from an address without association
     UnsolUnknown,
+    /// unsolicited response from the addressed outstation whose object part does not parse (kind selector), CON?
+    UnsolBad(u8, bool),
     Silence(u16),
 }
 
@@ -112,6 +114,7 @@ impl Prop for Accept {
             4 => dev.prop_map(Item::Deviant),
             3 => (any::<bool>(), any::<bool>(), any::<bool>()).prop_map(|(a, b, c)| Item::Unsol(a, b, c)),
             1 => Just(Item::UnsolUnknown),
+            1 => (any::<u8>(), any::<bool>()).prop_map(|(k, c)| Item::UnsolBad(k, c)),
             1 => prop_oneof![Just(1u16), Just(999), 0u16..400].prop_map(Item::Silence),
         ];
         let planned = prop_oneof![8 => 1u8..=3, 1 => 16u8..=18, 1 => 32u8..=34];
@@ -263,6 +266,7 @@ async fn run_case(case: &Case) -> CaseOut {
     let mut maybe_extra_ok = false;
     let mut unsol_seq: u8 = 5;
     let mut unsol_n: u8 = 0;
+    let mut bad_n: u8 = 0;
     let mut last_unsol: Option<Fragment> = None;
     let mut elapsed_since_tx: u64 = 0;
     let link_task = case.task == TaskKind::LinkStatus;
@@ -572,6 +576,32 @@ async fn run_case(case: &Case) -> CaseOut {
                     forbid_any_confirm = false;
                 }
                 last_unsol = Some(f);
+            }
+            Item::UnsolBad(kind, con) => {
+                unsol_seq = (unsol_seq + 1) & 0x0F;
+                // numbered apart from the deliverable fragments (a later duplicate item repeats the last good one)
+                bad_n = bad_n.wrapping_add(1) % 50;
+                let unsol_n = 200 + bad_n;
+                // a binary event followed by something the parser refuses: a truncated object, an unknown object, a
+                // zero-length octet string (which this very library's outstation can emit)
+                let mut objects = ra::h_prefixed16(2, 1, &[(1, vec![0x81])]);
+                match kind % 3 {
+                    0 => objects.extend(ra::h_prefixed16(32, 1, &[(2, vec![0x01, 1, 2])])),
+                    1 => objects.extend([99u8, 1, 0x06]),
+                    _ => objects.extend([111u8, 0, 0x28, 1, 0, 3, 0]),
+                }
+                let f = Fragment { fir: true, fin: true, con: *con, uns: true, seq: unsol_seq, func: func::UNSOLICITED_RESPONSE, iin: Some((0, 0)), objects };
+                rig.respond(OUT_A, &f);
+                rig.settle().await;
+                if link_task && !link_done {
+                    link_done = true;
+                    poisoned = true;
+                }
+                out.label("unsol_unparsable");
+                // never deliverable: if it is confirmed, its contents were dropped (coherence rule below)
+                observed_unsol = Some((f.clone(), unsol_n));
+                forbid_any_confirm = false;
+                // not remembered as "the previous unsolicited fragment": a later duplicate item repeats a good one
             }
             Item::UnsolUnknown => {
                 let f = Fragment {
